@@ -268,6 +268,168 @@ theorem findLos_limit_partial (e : Env) (p n o : Nat) (hm : ∀ c, c % 4096 = 0 
   unfold alignDown at h2
   omega
 
+/-! ### stale pointers: no valid object at or below `p`, any limit, any mapping -/
+
+theorem findLosLoop_none_of_no_vo (e : Env) (p low : Nat) :
+    ∀ (fuel cur grain : Nat), (∀ q, q ≤ cur → firstVo e q = none) → findLosLoop e p low fuel cur grain = none := by
+  intro fuel
+  induction fuel with
+  | zero => intro cur grain _; rfl
+  | succ fuel ih =>
+    intro cur grain h
+    unfold findLosLoop
+    by_cases h1 : cur < low
+    · simp [h1]
+    · by_cases h2 : (cur < grain && !e.mapped cur) = true
+      · simp [h1, h2]
+      · simp only [h1, if_false, h2, h cur (Nat.le_refl _)]
+        by_cases h8 : cur < 4096
+        · simp [h8]
+        · simp only [h8, if_false]
+          exact ih _ _ (fun q hq => h q (by omega))
+
+/-- **C08 (stale pointer into the LOS)**: when no VO bit is set at or below `p`'s page — the lowest large object of
+the space after it was swept, or between `alloc` and `post_alloc` — the lookup answers `None` for EVERY search limit
+(2^20 … `usize::MAX`) and whatever is mapped below: no hypothesis on `mapped`. -/
+theorem findLos_none_of_no_vo (e : Env) (p n : Nat) (h : ∀ a, a < alignDown p 4096 + 512 → e.vo a = false) :
+    findLos e p n = none := by
+  unfold findLos
+  apply findLosLoop_none_of_no_vo
+  intro q hq
+  unfold firstVo
+  have : (List.range 64).find? (fun k => e.vo (q + 8 * k)) = none := by
+    rw [List.find?_eq_none]
+    intro k hk
+    have hk' := List.mem_range.1 hk
+    simp [h (q + 8 * k) (by omega)]
+  rw [this]; rfl
+
+/-! ### the walk never depends on VO metadata of unmapped memory
+
+`Address::is_mapped` is tested whenever the walk enters a new mmap grain; a grain is mapped as a whole (`hu`). Two
+memories that agree on everything except the VO words of UNMAPPED pages give the same answer: the walk reads a VO
+word only after its page was found mapped. (The regression that tests `is_mapped` once, before the loop, breaks
+exactly this: `hoisted_reads_unmapped`.) -/
+
+theorem alignDown_eq_of_between (c q g : Nat) (hg : 0 < g) (h1 : alignDown c g ≤ q) (h2 : q ≤ c) :
+    alignDown q g = alignDown c g := by
+  unfold alignDown at *
+  have hc := Nat.div_add_mod c g
+  have hq := Nat.div_add_mod q g
+  have hcl := Nat.mod_lt c hg
+  have hb : q / g ≤ c / g := Nat.div_le_div_right h2
+  have ha : c / g ≤ q / g := by
+    rw [Nat.le_div_iff_mul_le hg, Nat.mul_comm]
+    omega
+  have hab : q / g = c / g := Nat.le_antisymm hb ha
+  rw [hab] at hq
+  omega
+
+theorem find?_congr' {α : Type} (l : List α) (f g : α → Bool) (h : ∀ x, x ∈ l → f x = g x) : l.find? f = l.find? g := by
+  induction l with
+  | nil => rfl
+  | cons a l ih =>
+    simp only [List.find?_cons, h a List.mem_cons_self]
+    rw [ih (fun x hx => h x (List.mem_cons_of_mem _ hx))]
+
+/-- `e'` is `e` except for the VO words of pages that are not mapped -/
+structure AgreeOnMapped (e e' : Env) : Prop where
+  mapped : e'.mapped = e.mapped
+  gran : e'.gran = e.gran
+  refOff : e'.refOff = e.refOff
+  size : e'.size = e.size
+  vo : ∀ page k, k < 64 → e.mapped page = true → e'.vo (page + 8 * k) = e.vo (page + 8 * k)
+
+theorem findLosLoop_reads_mapped_only (e e' : Env) (hag : AgreeOnMapped e e') (hg : 0 < e.gran)
+    (hu : ∀ a, e.mapped a = e.mapped (alignDown a e.gran)) (p low : Nat) :
+    ∀ (fuel cur grain : Nat), (∀ q, grain ≤ q → q ≤ cur → e.mapped q = true) →
+      findLosLoop e' p low fuel cur grain = findLosLoop e p low fuel cur grain := by
+  intro fuel
+  induction fuel with
+  | zero => intro cur grain _; rfl
+  | succ fuel ih =>
+    intro cur grain hinv
+    unfold findLosLoop
+    rw [hag.mapped, hag.gran]
+    by_cases h1 : cur < low
+    · simp [h1]
+    · by_cases h2 : (cur < grain && !e.mapped cur) = true
+      · simp [h1, h2]
+      · have hmc : e.mapped cur = true := by
+          by_cases hlt : cur < grain
+          · simpa [hlt] using h2
+          · exact hinv cur (by omega) (Nat.le_refl _)
+        have hfv : firstVo e' cur = firstVo e cur := by
+          unfold firstVo
+          rw [find?_congr' (List.range 64) (fun k => e'.vo (cur + 8 * k)) (fun k => e.vo (cur + 8 * k))
+            (fun k hk => hag.vo cur k (List.mem_range.1 hk) hmc)]
+        simp only [h1, if_false, h2, hfv]
+        cases hv : firstVo e cur with
+        | some a => simp only [internalOf, hag.refOff, hag.size]
+        | none =>
+          simp only
+          by_cases h8 : cur < 4096
+          · simp [h8]
+          · simp only [h8, if_false]
+            apply ih
+            intro q hq1 hq2
+            by_cases hlt : cur < grain
+            · simp only [hlt, if_true] at hq1
+              rw [hu q, alignDown_eq_of_between cur q e.gran hg hq1 (by omega), ← hu cur]
+              exact hmc
+            · simp only [hlt, if_false] at hq1
+              exact hinv q hq1 (by omega)
+
+/-- **C08 (memory safety of the LOS walk, as non-interference)**: the answer does not depend on the VO words of
+unmapped pages, for every pointer below 2^64 and every limit. -/
+theorem findLos_reads_mapped_only (e e' : Env) (hag : AgreeOnMapped e e') (hg : 0 < e.gran)
+    (hu : ∀ a, e.mapped a = e.mapped (alignDown a e.gran)) (p n : Nat) (hp : p < 2 ^ 64) :
+    findLos e' p n = findLos e p n := by
+  unfold findLos
+  apply findLosLoop_reads_mapped_only e e' hag hg hu
+  intro q h1 h2
+  unfold alignDown at h2
+  omega
+
+/-- the seeded regression: `is_mapped` tested once for `p`'s page, then the walk without any further test -/
+def findLosHoisted (e : Env) (p n : Nat) : Option Nat :=
+  let cur := alignDown p 4096
+  if !e.mapped cur then none
+  else findLosLoop { e with mapped := fun _ => true } p (alignDown (p - n) 4096) (cur / 4096 + 1) cur (2 ^ 64 - 1)
+
+/-- one mapped 8 KB grain at 0x2000 (no object), below it unmapped memory whose "VO word" holds garbage -/
+def staleDemo (garbage : Bool) : Env :=
+  { vo := fun a => garbage && a == 0x1008, mapped := fun a => decide (0x2000 ≤ a ∧ a < 0x4000), voMapped := fun _ => true,
+    gran := 0x2000, refOff := 8, size := fun _ => 0x4000 }
+
+/-- **witness** (decide): the real walk answers `None` whatever the unmapped VO word holds; the hoisted variant's
+answer depends on it (it reads the unmapped word — a SIGSEGV in the real process). -/
+theorem hoisted_reads_unmapped :
+    findLos (staleDemo false) 0x2010 (2 ^ 64 - 1) = none ∧ findLos (staleDemo true) 0x2010 (2 ^ 64 - 1) = none ∧
+    findLosHoisted (staleDemo false) 0x2010 (2 ^ 64 - 1) = none ∧
+    findLosHoisted (staleDemo true) 0x2010 (2 ^ 64 - 1) = some 0x1008 := by decide
+
+/-- the hypotheses of `findLos_reads_mapped_only` / `findLos_none_of_no_vo` are satisfiable (and the conclusion is
+not vacuous: the two memories differ) -/
+example : findLos (staleDemo true) 0x2010 (2 ^ 64 - 1) = findLos (staleDemo false) 0x2010 (2 ^ 64 - 1) :=
+  findLos_reads_mapped_only (staleDemo false) (staleDemo true)
+    ⟨rfl, rfl, rfl, rfl, fun page k _ hm => by
+      have : 0x2000 ≤ page := by simp [staleDemo] at hm; omega
+      simp [staleDemo]; omega⟩
+    (by decide)
+    (fun a => by
+      simp only [staleDemo, alignDown]
+      have := Nat.div_add_mod a 0x2000
+      have := Nat.mod_lt a (show 0 < 0x2000 by decide)
+      by_cases h : 0x2000 ≤ a ∧ a < 0x4000
+      · have : 0x2000 ≤ a - a % 0x2000 ∧ a - a % 0x2000 < 0x4000 := by omega
+        simp [h, this]
+      · have : ¬ (0x2000 ≤ a - a % 0x2000 ∧ a - a % 0x2000 < 0x4000) := by omega
+        simp [h, this])
+    0x2010 (2 ^ 64 - 1) (by decide)
+example : findLos (staleDemo false) 0x2010 (2 ^ 64 - 1) = none :=
+  findLos_none_of_no_vo _ _ _ (fun a _ => by simp [staleDemo])
+
 /-- a three-page large object at 0x10000 (reference 0x10008), everything mapped -/
 def losDemo : Env :=
   { vo := fun a => a == 0x10008, mapped := fun _ => true, voMapped := fun _ => true, gran := 4194304, refOff := 8,
